@@ -284,6 +284,57 @@ def r09_6(run):
     run.ob('R09.6', ep, ep.node, 'connect registers (its own endpoint, its own circuit)', ok, slot='register', message='TorCircuitEndpoint.connect does not register (self._target_endpoint, self._circuit)')
 
 
+def r09_8(run):
+    """check-then-act without a suspension point in between: the once-only attacher is recorded before
+    the coroutine first yields, so a concurrent connection finds it"""
+    ga = run.idx.unit('circuit._get_circuit_attacher')
+    g = cfg_of(ga)
+    sets = [n for n in g.real_nodes() if n.kind == 'stmt' and isinstance(n.ast, ast.Assign) and any((dotted(t) or '').endswith('.attacher') for t in n.ast.targets)
+            and not is_none(n.ast.value)]
+    ys = g.nodes_where(lambda n: any(isinstance(a, (ast.Yield, ast.YieldFrom)) for a in node_asts(n)))
+    tests = [t for t in g.live if t.kind == 'test' and isinstance(t.ast, ast.Compare) and (dotted(t.ast.left) or '').endswith('.attacher') and is_none(t.ast.comparators[0])]
+    run.floor('R09.8', 'singleton assignments in _get_circuit_attacher', len(sets), 1)
+    for s_ in sets:
+        between = [y for y in ys if any(g.dominates(t, y) for t in tests) and s_ in g.reachable([x for _, x in y.succ]) and not g.dominates(s_, y)]
+        run.ob('R09.8', ga, s_.ast, 'the singleton attacher is recorded before the first suspension point after the "is None" test', not between, slot='singleton-before-yield',
+               message='_get_circuit_attacher yields between testing and setting the singleton: a second connection started meanwhile '
+                       'creates a second attacher, which TorState refuses')
+    sa = TU(run, 'set_attacher')
+    gs = cfg_of(sa)
+    for arg_truthy in (True, False):
+        def hook(node, val, trail, arg_truthy=arg_truthy):
+            a = node.ast
+            if dotted(a) == sa.params[1]:
+                return arg_truthy
+            if isinstance(a, ast.Compare) and dotted(a.left) == 'self._attacher' and dotted(a.comparators[0]) == sa.params[1]:
+                return False if isinstance(a.ops[0], ast.Is) else True
+            if isinstance(a, ast.Compare) and dotted(a.left) == 'self._attacher' and is_none(a.comparators[0]):
+                cur_none = True
+                for n, lab in trail:
+                    if n.kind == 'stmt' and isinstance(n.ast, ast.Assign):
+                        v = assign_to(n.ast, 'self._attacher')
+                        if v is not None:
+                            cur_none = is_none(v)
+                return cur_none if isinstance(a.ops[0], ast.Is) else (not cur_none)
+            return None
+        for p in gs.paths(eval_hook=hook):
+            if p.exit == 'raise':
+                continue
+            last = None
+            for n, lab in p.steps:
+                if n.kind == 'stmt' and isinstance(n.ast, ast.Assign):
+                    v = assign_to(n.ast, 'self._attacher')
+                    if v is not None:
+                        last = v
+            if arg_truthy:
+                ok = last is not None and not is_none(last) and sa.params[1] in src(last)
+                run.ob('R09.8', sa, sa.node, 'installing records the attacher in the slot', ok, slot='slot:install', message='install path leaves self._attacher = %s' % (src(last) if last is not None else '<unchanged>'))
+            else:
+                ok = last is not None and is_none(last)
+                run.ob('R09.8', sa, sa.node, 'removing empties the slot (the old attacher is no longer consulted, a new one can be installed)', ok, slot='slot:remove',
+                       message='the removal path of set_attacher does not reset self._attacher: the removed attacher keeps deciding and a different one is refused')
+
+
 def r09_7(run):
     ep = run.idx.find_method(run.idx.cls('TorCircuitEndpoint', 'circuit'), 'connect')
     ga = run.idx.unit('circuit._get_circuit_attacher')
@@ -293,6 +344,7 @@ def r09_7(run):
 
 
 RULES = [
+    ('R09.8', 'once-only slots: singleton attacher recorded before the first suspension point; TorState slot emptied on removal, filled on install', r09_8),
     ('R09.7', 'no dropped Deferred in the via-circuit coroutines (attacher installed and circuit built before connecting; registration awaited)', r09_7),
     ('R09.1', 'path enumeration over the classes of attacher answers: the do-not-attach marker reaches no command', r09_1_2),
     ('R09.2', 'exactly one ATTACHSTREAM per decision (None => 0, good circuit => its id); consulted once, only for new streams; chain ends in _attacher_error', lambda run: None),
